@@ -172,7 +172,7 @@ class Campaign:
         for (p, k, what), vs in known.items():
             out_lines.append(f"KNOWN-FINDING: property={p} {what} [{k}; seen {len(vs)}x, e.g. {vs[0][1]['text'][:160]}]")
         seen_keys = set()
-        replays_dir = os.path.join(VERIF, "replays")
+        replays_dir = os.environ.get("VERIF_REPLAY_DIR") or os.path.join(VERIF, "replays")
         for i, v in own:
             if v["key"] in seen_keys:
                 continue
@@ -223,8 +223,9 @@ class Campaign:
 
 
 def write_evidence(prop, ev):
-    os.makedirs(os.path.join(VERIF, "evidence"), exist_ok=True)
-    path = os.path.join(VERIF, "evidence", f"{prop}.json")
+    evdir = os.environ.get("VERIF_EVIDENCE_DIR") or os.path.join(VERIF, "evidence")  # override: validation runs against scratch trees
+    os.makedirs(evdir, exist_ok=True)
+    path = os.path.join(evdir, f"{prop}.json")
     try:
         sys.path.insert(0, pool.DEPS)
         import jsonschema
